@@ -218,7 +218,7 @@ class G:
         if k == 'dbcoll': return {'db': self.nsname(), 'coll': self.nsname()}
         if k == 'coll': return {'coll': self.nsname()}
         if k == 'db': return {'db': self.nsname()}
-        return {'coll': self.nsname(), 'db': self.nsname(), 'comment': 'x'}
+        return {'coll': self.nsname(), 'db': self.nsname(), 'v': RawNum('1')}    # members in the other order, plus a non-string member (every STRING member of such a document is a name)
 
     def fieldref(self):
         return '$' + self.field()
